@@ -242,6 +242,13 @@ def gen(seed, run, tier='quick'):
         if k == 'update':
             v = _spell_validity(rng, convs[ci]['kind'], some_date())
             ops.append(['update', ci, v, rate_specs(ci)])
+            if rng.random() < 0.07:
+                # a feed of rate specs that, while it is being read, passes
+                # a correction for another period to the same converter
+                ops[-1].append({'v': _spell_validity(rng, convs[ci]['kind'],
+                                                     some_date()),
+                                'specs': rate_specs(ci),
+                                'at': rng.randrange(4)})
         elif k == 'bad_validity':
             ops.append(['update', ci, rng.choice(INVALID_VALIDITIES),
                         rate_specs(ci)])
@@ -806,6 +813,18 @@ def execute(h):
                                      else one)
                 feed_error = (len(str(op[3])) + 3 * i) % 17 == 0 and \
                     pv is not None
+                nested = op[4] if len(op) > 4 and not feed_error and \
+                    pv is not None else None
+                if nested:
+                    pv2 = RefRates.parse_validity(nested['v'])
+                    mine = {s[0][0] for s in specs}
+                    specs2 = [[[s[0][0] % n_cur, s[0][1]], s[1], s[2]]
+                              for s in nested['specs']
+                              if s[0][0] % n_cur !=
+                              cfg['convs'][ci]['base'] % n_cur and
+                              (pv2 != pv or s[0][0] % n_cur not in mine)]
+                    if pv2 is None or not specs2 or not specs:
+                        nested = None
                 if feed_error:
                     # the iterable of rate specs fails while it is read (a
                     # feed that breaks off): the update raises, and like
@@ -813,7 +832,7 @@ def execute(h):
                     # kind of validity
                     must_accept = False
                     bump(faults, 'rate_spec_iterable_raises')
-                else:
+                elif not nested:
                     must_accept = model.update(op[2], specs)
                 # rate_specs is documented as an Iterable: hand it over as
                 # list, tuple, iterator or generator
@@ -828,11 +847,38 @@ def execute(h):
                             yield sp
                         raise LookupError('feed broke off')
                     container = feed()
+                nested_out = []
+                if nested:
+                    lib2 = [(curs[c] if how == 'obj' else curs[c].symbol,
+                             mk_amount(amt), mk_um(um))
+                            for (c, how), amt, um in specs2]
+
+                    def feed2(mine=list(lib_specs),
+                              k=nested['at'] % len(lib_specs)):
+                        for j, sp in enumerate(mine):
+                            if j == k:
+                                nested_out.append(observe(lambda: (
+                                    'ok', convs[ci].update(
+                                        mk_validity(nested['v']), lib2))))
+                            yield sp
+                    container = feed2()
                 if form >= 2:
                     bump(probes, 'rate_specs_as_one_shot_iterable')
                 o = observe(lambda: ('ok', convs[ci].update(
                     mk_validity(op[2]), container)))
                 accepted = o[0] == 'ok'
+                if nested:
+                    # two updates of disjoint entries: whichever the
+                    # converter takes for the more recent one, both count
+                    if nested_out:
+                        bump(faults, 'update_made_while_another_reads_its_'
+                                     'feed')
+                        must2 = model.update(nested['v'], specs2)
+                        if (nested_out[0][0] == 'ok') != must2:
+                            violate('update', 'nested_update_outcome', i,
+                                    validity=nested['v'],
+                                    observed=list(nested_out[0]))
+                    must_accept = model.update(op[2], specs)
                 # the caller goes on using (and changing) what it handed
                 # over: the converter must have taken its own copy
                 for sp in lib_specs:
